@@ -74,7 +74,17 @@ def primitives(ctx, r):
         rt = prog.ty_str(b.locals[0])
         adds = [(bb, o) for bb in b.normal_blocks() for o in binops_in(b, bb) if o[1].startswith("Add")]
         subs = [(bb, o) for bb in b.normal_blocks() for o in binops_in(b, bb) if o[1].startswith("Sub")]
-        if rt == "bool":
+        if balance.enum_indicator(prog, b.locals[0]) is not None and not subs and adds:
+            # the answer is a two-variant enum instead of a bool: one increment by one, and the variant answered when
+            # the count was zero differs from the other one
+            ok_add = len(adds) == 1 and all(l[0] == "const" and l[1] == 1 for l in sl.leaves_of_operand(adds[0][1][3]))
+            fv = balance.first_variant(prog, b)
+            r.check(ok_add and fv is not None, "inc-primitive", b,
+                    "%s: count += 1 and answers %s when the count was 0" % (
+                        b.path, prog.adts[balance.enum_indicator(prog, b.locals[0])]["variants"][fv]["name"] if fv is not None else "?"),
+                    "%s does not implement 'add one, report whether it was zero' (adds: %d, a variant tied to the zero "
+                    "test: %s)" % (b.path, len(adds), fv is not None))
+        elif rt == "bool":
             ok_add = len(adds) == 1 and all(l[0] == "const" and l[1] == 1 for l in sl.leaves_of_operand(adds[0][1][3])) and not subs
             # return value: Eq(count, 0) evaluated before the add
             lv = sl.leaves_of_place({"l": 0, "p": []})
@@ -119,6 +129,39 @@ def primitives(ctx, r):
                                 some_ok = bool(removes) and all(cfgutil.edge_dominates(b, (sw, c[2]), cu.site.bb) for cu in removes)
                             if is_none and cfgutil.edge_dominates(b, (sw, c[3]), bb):
                                 none_ok = True
+            if ok_sub and not (some_ok and none_ok):
+                # `Ok(reached_zero.then_some(hash))` with `reached_zero = (count == 0)` taken after the subtraction, and
+                # the entry removed under the same flag
+                for bb in b.normal_blocks():
+                    for s_ in b.stmts(bb):
+                        if not (s_["k"] == "assign" and s_["lhs"]["l"] == 0 and s_["rv"]["k"] == "agg" and
+                                s_["rv"].get("vn") == "Ok" and s_["rv"]["ops"]):
+                            continue
+                        lv = sl.leaves_of_operand(s_["rv"]["ops"][0])
+                        if len(lv) != 1 or list(lv)[0][0] != "call" or list(lv)[0][1].split("::")[-1] not in ("then_some", "then"):
+                            continue
+                        tcall = b.blocks[list(lv)[0][2]]["term"]
+                        fl = sl.leaves_of_operand(tcall["args"][0])
+                        eqs = [l for l in fl if l[0] == "binop" and l[1] == "Eq"]
+                        if len(fl) != 1 or len(eqs) != 1:
+                            continue
+                        ebb = eqs[0][2]
+                        zero = any(all(x[0] == "const" and x[1] == 0 for x in sl.leaves_of_operand(o[k]))
+                                   for o in binops_in(b, ebb) if o[1] == "Eq" for k in (2, 3))
+                        after = bool(subs) and b.dominates(subs[0][0], ebb) and _stmt_order(b, subs[0][0], "Sub", ebb, "Eq")
+                        rem_ok = bool(removes)
+                        for cu in removes:
+                            guarded = False
+                            for sw in b.normal_blocks():
+                                c = cfgutil.switch_condition(b, sw)
+                                if c and c[0] in ("bool", "cmp"):
+                                    src = sl.leaves_of_operand(c[1]) if c[0] == "bool" else set(eqs if c[5] == ebb else ())
+                                    tt, ff = cfgutil.true_false_edges(b, sw)
+                                    if set(src) == set(eqs) and tt is not None and cfgutil.edge_dominates(b, (sw, tt), cu.site.bb):
+                                        guarded = True
+                            rem_ok = rem_ok and guarded
+                        if zero and after and rem_ok:
+                            some_ok = none_ok = True
             r.check(ok_sub and some_ok and none_ok, "dec-primitive", b,
                     "%s: count -= 1; at zero removes the entry and returns the hash, otherwise None" % b.path,
                     "%s does not implement 'subtract one, at zero remove and report' (subs: %d, some-arm: %s, none-arm: %s)" % (
@@ -259,19 +302,26 @@ def rules(ctx, tier):
 
     r = Rule("R4", "errors of the blob unlink propagate; only NotFound is tolerated",
              "a blob that could not be deleted is silently left behind (or a real error is reported as success)")
-    for site in ctx.sem_sites("BLOB_UNLINK"):
-        b = site.body
+    # judged at the unlink syscall, in the flat view of the function that supplies the path when the syscall sits in a
+    # private helper (whose outcome enum the caller turns into an error report)
+    for (b, site, kb0) in ctx.concrete_occurrences("BLOB_UNLINK"):
         if (site.path or "") not in ("std::fs::remove_file",):
             continue
-        rf = ctx.must(None).rf(b)
+        rf = ctx.rf(b)
         errs = rf.err_edges_of(site.bb)
-        r.check(bool(errs), "unlink-tested:%s" % b.path.split("::")[-1], b,
+        r.check(bool(errs), "unlink-tested:%s" % kb0.path.split("::")[-1], kb0,
                 "the unlink at %s is tested" % site_where(site), "the result of the unlink at %s is not tested" % site_where(site),
                 site_where(site))
         sl = Slicer(ctx.world, b)
         for (sb, tb) in errs:
             # on the error edge: reaching an Ok/continue path requires a kind() comparison
             blocks = cfgutil.reach(b, tb)
+            fw = [rf.forwarded.get(y) for y in blocks if rf.forwarded.get(y) is not None]
+            if fw and site.bb not in blocks and all(x == "err" for x in fw):
+                # this edge only propagates (`result.map_err(..)?` after the tolerated kind was dealt with elsewhere)
+                r.ok("unlink-error-propagates:%s" % kb0.path.split("::")[-1], kb0,
+                     "an error edge of the unlink at %s leads only to an Err return" % site_where(site))
+                continue
             kinds = []
             for sw in blocks:
                 c = cfgutil.cmp_true_edge(b, sw)
@@ -281,7 +331,7 @@ def rules(ctx, tier):
                 if any(x[0] == "call" and x[1] == "std::io::Error::kind" for x in la):
                     # (switch, edge on which the kind is the tolerated one, edge on which it is another kind)
                     kinds.append((sw, c[3], c[4]) if c[0] == "Eq" else (sw, c[4], c[3]))
-            r.check(len(kinds) >= 1, "tolerates-only-a-kind:%s" % b.path.split("::")[-1], b,
+            r.check(len(kinds) >= 1, "tolerates-only-a-kind:%s" % kb0.path.split("::")[-1], kb0,
                     "a failed unlink at %s is tolerated only after a test of the error kind" % site_where(site),
                     "a failed unlink at %s is tolerated without looking at the error kind" % site_where(site), site_where(site))
             for (sw, t_eq, t_ne) in kinds:
@@ -289,7 +339,7 @@ def rules(ctx, tier):
                 nb = cfgutil.reach(b, t_ne, removed_blocks=[sb])
                 errish = any(rf.forwarded.get(y) == "err" for y in nb) or any(
                     (b.blocks[y]["term"]["k"] == "call" and term_path(b.blocks[y]["term"]) == "std::vec::Vec::push") for y in nb)
-                r.check(errish, "other-kinds-reported:%s" % b.path.split("::")[-1], b,
+                r.check(errish, "other-kinds-reported:%s" % kb0.path.split("::")[-1], kb0,
                         "any other error of the unlink at %s is reported" % site_where(site),
                         "errors other than the tolerated kind of the unlink at %s are dropped" % site_where(site), site_where(site))
     r.need(6, "unlink sites: tested + kind test + reported")
